@@ -80,6 +80,10 @@ OUT_POSITION = {"clip": 3, "round": 2, "around": 2, "round_": 2, "cumsum": 3, "c
 COPY_KW_VIEWS = {"array", "astype", "asarray", "asanyarray", "require", "nan_to_num"}
 LIBRARY_ROOTS = {"numpy", "np", "scipy", "math", "cmath", "numba", "multiprocessing", "time", "functools", "itertools",
                  "warnings", "os", "sys", "fft", "linalg", "special", "interpolate", "optimize", "ndimage", "signal", "copy"}
+# calls that change process-wide settings (hidden state for every later call in the process); `with numpy.errstate(...)` and
+# `with warnings.catch_warnings():` are scoped and restore what they found: not flagged (filter calls inside the latter neither)
+GLOBAL_SETTERS = {"seterr", "seterrcall", "set_printoptions", "setbufsize", "set_string_function", "simplefilter", "filterwarnings",
+                  "resetwarnings", "chdir", "putenv", "unsetenv", "setlocale", "setrecursionlimit", "setswitchinterval", "seterrobj"}
 GLOBAL_RNG_OK = {"default_rng", "Generator", "RandomState", "SeedSequence", "PCG64", "MT19937", "BitGenerator"}
 
 
@@ -342,6 +346,10 @@ class Translator:
             b = self.base_name(e.args[0])                    # numpy.add.at(x, idx, v) modifies x
             if b is not None:
                 pre.append(("write", cx.var(pfx + b)))
+        if name in GLOBAL_SETTERS and not (name in ("simplefilter", "filterwarnings", "resetwarnings") and getattr(cx, "in_catch", 0)) and \
+                ((isinstance(f, ast.Attribute) and (pfx + (self.base_name(f.value) or "")) not in cx.vars) or
+                 (isinstance(f, ast.Name) and (pfx + f.id) not in cx.vars)):
+            pre.append(("globalWrite", "state"))                 # numpy.seterr(...), warnings.simplefilter(...), os.chdir(...)
         # names imported from a process-global random module; module-level generator objects
         if isinstance(f, ast.Name):
             src_mod = self.imported.get(cx.module, {}).get(f.id, "")
@@ -513,8 +521,9 @@ class Translator:
             else:
                 nm = (self_prefix(pfx, cx) if b.startswith("self.") else pfx) + b
                 if nm not in cx.vars and not b.startswith("self.") and \
-                        (b in self.module_names.get(cx.module, ()) or b in self.module_funcs.get(cx.module, ())):
-                    out.append(("globalWrite", "state"))             # store through a module-level object / function attribute
+                        (b in self.module_names.get(cx.module, ()) or b in self.module_funcs.get(cx.module, ())
+                         or b in ("os", "sys", "numpy", "np", "warnings")):
+                    out.append(("globalWrite", "state"))             # store through a module-level object / function attribute / os.environ
                 v = cx.var(nm)
                 out.append(("write", v))
                 # NOTE: storing into an ndarray copies values; a Python list/dict would keep a reference to what was
@@ -578,12 +587,18 @@ class Translator:
                 seq.append(("loop", self.block(st.body + [ast.Expr(st.test)], cx, pfx, depth, rets)))
                 seq.append(self.block(st.orelse, cx, pfx, depth, rets))
             elif isinstance(st, (ast.With, ast.AsyncWith)):
+                catch = 0
                 for it in st.items:
                     s = self.sources(it.context_expr, cx, pre, pfx, depth)
                     if it.optional_vars is not None:
                         self.target_write(it.optional_vars, cx, pre, pfx, s, depth)
+                    ce = it.context_expr
+                    if isinstance(ce, ast.Call) and (getattr(ce.func, "attr", None) or getattr(ce.func, "id", None)) == "catch_warnings":
+                        catch = 1
                 seq += pre
+                cx.in_catch = getattr(cx, "in_catch", 0) + catch
                 seq.append(self.block(st.body, cx, pfx, depth, rets))
+                cx.in_catch -= catch
             elif isinstance(st, ast.Try):
                 parts = [self.block(st.body, cx, pfx, depth, rets)]
                 for h in st.handlers:
